@@ -37,6 +37,8 @@ def make(case):
         opts = dict(netgen.TIGHT, mode=str(rng.choice(["sequential", "sequential", "bidirectional"])), use_numba=case["numba"])
     else:
         base = netgen.gen_hydraulic(rng, fluid=case["fluid"], features=case["feats"], max_sections=4)
+        if rng.random() < 0.5:
+            base = netgen.permute_rows(base, rng)     # loads of one junction in non-adjacent rows, unsorted tables
         opts = dict(netgen.TIGHT, use_numba=case["numba"], friction_model=str(rng.choice(["nikuradse", "swamee-jain", "colebrook"])),
                     tolerance_colebrook=1e-12, max_iter_colebrook=200)
     return base, opts, rng
